@@ -4,8 +4,8 @@ import CattrsModel.Generics.Model
 # Line-protocol operations of the generics model (driver only; no theorem depends on this file)
 
 Annotation terms on the wire: `(tv "n")` `(lf "n")` `(app "c" a…)` `(ann a "m"…)` `self` `(pu a…)`.
-`<pairs>` = `(("name" a)…)`; `<chain>` = `((lvl "name" ("param"…) <pairs: defaults> 0|1 <pairs: own fields> (a…: base args))…)`,
-head class first; `<tgt>` = `bare` | `(alias a…)`.
+`<pairs>` = `(("name" a)…)`; `<chain>` = `((lvl "name" ("param"…) <pairs: defaults> 0|1 <pairs: own fields> (a…: base args) [nb na])…)`,
+head class first (`nb` / `na`: number of non-generic bases before / after the parametrised base); `<tgt>` = `bare` | `(alias a…)`.
 
 * `DCW <pairs> <a|none> <a>`          → `(ok a)` | `err`          `deep_copy_with(t, mapping, self_is)`
 * `SUBST <pairs> <a> <a>`             → `a`                       the specification (`self` as 2nd argument: `Self` stays)
@@ -73,6 +73,14 @@ def levelOfSexp : Sexp → Option Level
       let own ← pairsOfSexp own
       let bargs ← annsOfSexp bargs
       pure { name := name, params := ps, defaults := dfl, genericBase := gb, own := own, baseArgs := bargs }
+  | .list [.atom "lvl", .str name, ps, dfl, gb, own, bargs, .atom pb, .atom pa] => do
+      let ps ← strsOfSexp ps
+      let dfl ← pairsOfSexp dfl
+      let gb ← bool? gb
+      let own ← pairsOfSexp own
+      let bargs ← annsOfSexp bargs
+      pure { name := name, params := ps, defaults := dfl, genericBase := gb, own := own, baseArgs := bargs,
+             plainBefore := pb.toNat!, plainAfter := pa.toNat! }
   | _ => none
 
 def chainOfSexp : Sexp → Option (List Level)
